@@ -82,6 +82,9 @@ func (c10) Gen(rng *simrt.Rand, tier string, run int) interface{} {
 	// a tiny content alphabet in a third of the plans: the same block content is
 	// written again and again (content-addressed shortcuts, caches keyed by value)
 	tinyAlphabet := rng.Chance(1, 3)
+	// in another quarter, unique contents that agree with one another (and with
+	// the zero block) on long stretches: only a prefix, a suffix or one word set
+	shaped := !tinyAlphabet && rng.Chance(1, 3)
 	id := uint64(0)
 	for c := 0; c < nClients; c++ {
 		n := 1 + rng.Intn(5)
@@ -98,7 +101,9 @@ func (c10) Gen(rng *simrt.Rand, tier string, run int) interface{} {
 			case 0, 1, 2, 3:
 				id++
 				w := DiskOp{Kind: "write", Addr: a, ID: 0x1000*uint64(c+1) + id}
-				if tinyAlphabet || rng.Chance(1, 6) {
+				if shaped {
+					w.ID = model.Shaped(w.ID, rng.Intn(5))
+				} else if tinyAlphabet || rng.Chance(1, 6) {
 					// content that was (or will be) written before: block 0xEE / 0xEF / zeros
 					w.ID = []uint64{0xEE, 0xEF, 0xEE, 0}[rng.Intn(4)]
 				}
